@@ -705,144 +705,6 @@ Section Content.
   Qed.
 End Content.
 
-(* ================= every nesting of the proved combinators ================= *)
-Section Nest.
-  Variable content : list N -> list N.
-
-  (* machine, abstraction function and invariant of a configuration *)
-  Fixpoint trip (c : cfg) : triple :=
-    match c with
-    | Leaf cr => (leaf cr, leaf_abs, leaf_inv content)
-    | Replica subs => let T := map trip subs in (replica (map tM T), node_abs T, node_inv T)
-    | Shard subs => let T := map trip subs in (shard (map tM T), shard_abs T, shard_inv T)
-    | Cond a b => (cond (tM (trip a)) (tM (trip b)), cond_abs (trip a), cond_inv (trip a) (trip b))
-    | ProxyCache c o => (proxycache (tM (trip c)) (tM (trip o)), pc_abs (trip o), pc_inv (trip c) (trip o))
-    | _ => (sem c, (fun _ => []), (fun _ => False))
-    end.
-
-  (* the shapes covered by the theorem: any nesting of replicas (all replicas written and read), shards, cond and
-     proxycache (eviction aside) over leaves that support removal *)
-  Fixpoint shape_ok (c : cfg) : bool :=
-    match c with
-    | Leaf cr => cr
-    | Replica subs | Shard subs => negb (match subs with [] => true | _ => false end) && forallb shape_ok subs
-    | Cond a b => shape_ok a && shape_ok b
-    | ProxyCache c o => shape_ok c && shape_ok o
-    | _ => false
-    end.
-
-  Lemma cfg_ind' (P : cfg -> Prop) :
-    (forall cr, P (Leaf cr)) ->
-    (forall subs, Forall P subs -> P (Replica subs)) ->
-    (forall subs, Forall P subs -> P (Shard subs)) -> (forall subs, P (Union subs)) ->
-    (forall d l u, P (Overlay d l u)) -> (forall m, P (Namespace m)) ->
-    (forall c o, P c -> P o -> P (ProxyCache c o)) -> (forall a b, P a -> P b -> P (Cond a b)) ->
-    forall c, P c.
-  Proof.
-    intros HL HR HS HU HO HN HP HC. fix IH 1. intros [cr|subs|subs|subs|d l u|m|c o|a b].
-    - apply HL.
-    - apply HR. induction subs as [|x xs IHxs]; constructor; [apply IH|exact IHxs].
-    - apply HS. induction subs as [|x xs IHxs]; constructor; [apply IH|exact IHxs].
-    - apply HU.
-    - apply HO.
-    - apply HN.
-    - apply HP; apply IH.
-    - apply HC; apply IH.
-  Qed.
-
-  Lemma kids_refine subs : Forall (fun c => shape_ok c = true -> tM (trip c) = sem c /\ refines content (sem c) (tA (trip c)) (tI (trip c))) subs ->
-    (forall x, In x subs -> shape_ok x = true) ->
-    map tM (map trip subs) = map sem subs /\ okl content (map trip subs).
-  Proof.
-    intros IH Hall. split.
-    - rewrite map_map. apply map_ext_in. intros x Hx. rewrite Forall_forall in IH. apply (IH x Hx). apply Hall. exact Hx.
-    - apply Forall_map. apply Forall_forall. intros x Hx. rewrite Forall_forall in IH.
-      destruct (IH x Hx (Hall x Hx)) as [E R]. rewrite E. exact R.
-  Qed.
-
-  Theorem nest_refines : forall c, shape_ok c = true ->
-    tM (trip c) = sem c /\ refines content (sem c) (tA (trip c)) (tI (trip c)).
-  Proof.
-    induction c as [cr|subs IH|subs IH| | | |c o IHc IHo|a b IHa IHb] using cfg_ind'; cbn [shape_ok]; intros Hs; try discriminate.
-    - subst cr. split; [reflexivity|]. cbn [trip tA tI sem fst snd]. apply leaf_refines.
-    - apply andb_true_iff in Hs as [Hne Hall]. rewrite forallb_forall in Hall.
-      destruct (kids_refine subs IH Hall) as [HM Hok].
-      split; [cbn [trip tM fst]; rewrite HM; reflexivity|].
-      cbn [trip tA tI fst snd sem]. rewrite <- HM. apply replica_refines; [exact Hok|destruct subs; discriminate].
-    - apply andb_true_iff in Hs as [Hne Hall]. rewrite forallb_forall in Hall.
-      destruct (kids_refine subs IH Hall) as [HM Hok].
-      split; [cbn [trip tM fst]; rewrite HM; reflexivity|].
-      cbn [trip tA tI fst snd sem]. rewrite <- HM. apply shard_refines; [exact Hok|destruct subs; discriminate].
-    - apply andb_true_iff in Hs as [Hc Ho]. destruct (IHc Hc) as [Ec Rc]. destruct (IHo Ho) as [Eo Ro].
-      split; [cbn [trip tM fst]; rewrite Ec, Eo; reflexivity|].
-      cbn [trip tA tI fst snd sem]. rewrite <- Ec, <- Eo. apply proxycache_refines; [rewrite Ec; exact Rc|rewrite Eo; exact Ro].
-    - apply andb_true_iff in Hs as [Ha Hb]. destruct (IHa Ha) as [Ea Ra]. destruct (IHb Hb) as [Eb Rb].
-      split; [cbn [trip tM fst]; rewrite Ea, Eb; reflexivity|].
-      cbn [trip tA tI fst snd sem]. rewrite <- Ea, <- Eb. apply cond_refines; [rewrite Ea; exact Ra|rewrite Eb; exact Rb].
-  Qed.
-
-  Lemma kids_init subs : Forall (fun c => shape_ok c = true -> tI (trip c) (init c)) subs -> (forall x, In x subs -> shape_ok x = true) ->
-    invl (map trip subs) (map init subs).
-  Proof.
-    intros IH Hall. unfold invl. induction subs as [|x xs IHx]; [constructor|]. cbn [map]. inversion IH; subst.
-    constructor; [apply H1; apply Hall; left; reflexivity|apply IHx; [assumption|intros y Hy; apply Hall; right; exact Hy]].
-  Qed.
-
-  Lemma kids_abs subs : Forall (fun c => shape_ok c = true -> tA (trip c) (init c) = []) subs -> (forall x, In x subs -> shape_ok x = true) ->
-    Forall (fun m => m = []) (absl (map trip subs) (map init subs)).
-  Proof.
-    intros IH Hall. induction subs as [|x xs IHx]; [constructor|]. cbn [map absl map2]. inversion IH; subst.
-    constructor; [apply H1; apply Hall; left; reflexivity|apply IHx; [assumption|intros y Hy; apply Hall; right; exact Hy]].
-  Qed.
-
-  Lemma union_all_nil ms : Forall (fun m => m = []) ms -> union ms = [].
-  Proof. intros H. induction H as [|m ms -> _ IH]; [reflexivity|]. cbn [union fold_right]. fold (union ms). rewrite IH. reflexivity. Qed.
-
-  Lemma init_abs : forall c, shape_ok c = true -> tA (trip c) (init c) = [].
-  Proof.
-    induction c as [cr|subs IH|subs IH| | | |c o IHc IHo|a b IHa IHb] using cfg_ind'; cbn [shape_ok]; intros Hs; try discriminate.
-    - reflexivity.
-    - apply andb_true_iff in Hs as [_ Hall]. rewrite forallb_forall in Hall. cbn [trip tA fst snd init node_abs].
-      apply union_all_nil. apply kids_abs; assumption.
-    - apply andb_true_iff in Hs as [_ Hall]. rewrite forallb_forall in Hall. cbn [trip tA fst snd init shard_abs].
-      apply union_all_nil. apply kids_abs; assumption.
-    - apply andb_true_iff in Hs as [Hc Ho]. cbn [trip tA fst snd init pc_abs]. apply IHo. exact Ho.
-    - apply andb_true_iff in Hs as [Ha Hb]. cbn [trip tA fst snd init cond_abs]. apply IHa. exact Ha.
-  Qed.
-
-  Lemma init_inv : forall c, shape_ok c = true -> tI (trip c) (init c).
-  Proof.
-    induction c as [cr|subs IH|subs IH| | | |c o IHc IHo|a b IHa IHb] using cfg_ind'; cbn [shape_ok]; intros Hs; try discriminate.
-    - cbn. split; constructor.
-    - apply andb_true_iff in Hs as [_ Hall]. rewrite forallb_forall in Hall. cbn [trip tI snd init node_inv]. apply kids_init; assumption.
-    - apply andb_true_iff in Hs as [_ Hall]. rewrite forallb_forall in Hall. cbn [trip tI snd init shard_inv].
-      split; [apply kids_init; assumption|].
-      assert (Hnil : Forall (fun m => m = []) (absl (map trip subs) (map init subs))).
-      { apply kids_abs; [|exact Hall]. apply Forall_forall. intros x Hx Hsx. apply init_abs. exact Hsx. }
-      intros i m k v Hi Hl. rewrite Forall_forall in Hnil. rewrite (Hnil m (nth_error_In _ _ Hi)) in Hl. discriminate.
-    - apply andb_true_iff in Hs as [Hc Ho]. cbn [trip tI snd init pc_inv]. split; [apply IHc; exact Hc|]. split; [apply IHo; exact Ho|].
-      rewrite (init_abs c Hc). intros k v Hl. discriminate.
-    - apply andb_true_iff in Hs as [Ha Hb]. cbn [trip tI snd init cond_inv]. split; [apply IHa; exact Ha|apply IHb; exact Hb].
-  Qed.
-
-  Fixpoint run_spec (m : smap) (ops : list op) : list out :=
-    match ops with [] => [] | o :: r => spec_out m o :: run_spec (spec_state m o) r end.
-
-  Theorem run_refines M A I : refines content M A I -> forall ops s, I s -> Forall (op_ok content) ops ->
-    run M s ops = run_spec (A s) ops.
-  Proof.
-    intros R. induction ops as [|o ops IH]; intros s Hi Hok; [reflexivity|]. inversion Hok; subst.
-    destruct (r_step _ _ _ _ R s o Hi) as (A1 & B1 & C1); [assumption|].
-    cbn [run run_spec]. destruct (M s o) as [s' x]. cbn [fst snd] in *. subst x. f_equal. rewrite <- B1. apply IH; assumption.
-  Qed.
-
-  Theorem nest_behaves_as_map c ops : shape_ok c = true -> Forall (op_ok content) ops ->
-    run (sem c) (init c) ops = run_spec [] ops.
-  Proof.
-    intros Hs Hok. destruct (nest_refines c Hs) as [_ R].
-    rewrite (run_refines _ _ _ R ops (init c) (init_inv c Hs) Hok). rewrite init_abs by exact Hs. reflexivity.
-  Qed.
-End Nest.
 
 (* the union store is read-only: writes are refused without any effect, reads see the sorted union *)
 Lemma union_rejects_writes ms s : forall o, (match o with Recv _ _ _ | Remove _ => True | _ => False end) ->
